@@ -511,6 +511,48 @@ theorem C16_queue (os : List Order) (h : ∀ o ∈ os, OrderOk o) : parseQueue (
     exact mapM_show showOrder (fun p => match parseOrder p with | .ok o => .ok o | .error _ => .error Err.parseError) os
       (fun o' ho' => by simp only [C16_order o' (h o' ho')])
 
+/-! ### transaction lists (any length) -/
+
+theorem showTx_recChars (t : TxRec) : RecChars (showTx t) := by
+  obtain ⟨txid, taker, maker, price, qty, side, ts⟩ := t
+  simp only [showTx]; apply recChars_order_aux _ _ (by plain_tac); rec_fields
+
+theorem showTx_ne_nil (t : TxRec) : showTx t ≠ [] := by
+  simp only [showTx]; exact record_ne_nil _ _
+
+theorem lit_txs : lit "Transactions:[" = lit "Transactions:" ++ ['['] := by decide
+
+/-- **transaction lists**: any number of transactions, in the order printed -/
+theorem C16_txlist (l : List TxRec) (h : ∀ t ∈ l, TxOk t) : parseTxList (showTxList l) = .ok l := by
+  unfold parseTxList showTxList
+  have hstart : startsWith (lit "Transactions:[") (lit "Transactions:[" ++ joinSep [','] (l.map showTx) ++ [']']) = true :=
+    startsWith_wrapped _ _ _
+  have hend : endsWith [']'] (lit "Transactions:[" ++ joinSep [','] (l.map showTx) ++ [']']) = true := endsWith_append _ _
+  have hidx : idxOf '[' (lit "Transactions:[" ++ joinSep [','] (l.map showTx) ++ [']']) = some 13 := by
+    rw [lit_txs, List.append_assoc, List.append_assoc, List.singleton_append]
+    rw [idxOf_append _ (by decide)]; rfl
+  have hr : ridxOf ']' (lit "Transactions:[" ++ joinSep [','] (l.map showTx) ++ [']']) =
+      some (14 + (joinSep [','] (l.map showTx)).length) := by
+    rw [ridxOf_snoc]; simp [List.length_append]; rfl
+  have hcontent : ((lit "Transactions:[" ++ joinSep [','] (l.map showTx) ++ [']']).drop (13 + 1)).take
+      (14 + (joinSep [','] (l.map showTx)).length - 13 - 1) = joinSep [','] (l.map showTx) := by
+    exact middle' (lit "Transactions:[") _ ']' 13 (by decide)
+  simp only [hstart, hend, Bool.not_true, Bool.false_eq_true, or_self, if_false, hidx, hr]
+  rw [if_neg (by omega), hcontent]
+  cases hl : l with
+  | nil => simp [joinSep]
+  | cons t rest =>
+    rw [← hl]
+    have hne : l.map showTx ≠ [] := by simp [hl]
+    have hbody : joinSep [','] (l.map showTx) ≠ [] :=
+      joinSep_ne_nil _ _ hne (by intro x hx; obtain ⟨t', _, rfl⟩ := List.mem_map.1 hx; exact showTx_ne_nil t')
+    have hsplit : splitTop 0 [] (joinSep [','] (l.map showTx)) = l.map showTx :=
+      splitTop_joinSep _ (by
+        intro x hx; obtain ⟨t', _, rfl⟩ := List.mem_map.1 hx
+        exact ⟨showTx_recChars t', showTx_ne_nil t'⟩)
+    rw [if_neg (by simpa using hbody), hsplit]
+    exact mapM_show showTx parseTx l (fun t' ht' => C16_tx t' (h t' ht'))
+
 /-! non-vacuity: a reserve order with boundary values satisfies the premise -/
 example : OrderOk ⟨⟨true, 2 ^ 128 - 1⟩, W - 1, 0, .buy, W - 1, .gtd (W - 1), .reserve (W - 1) 0 none true⟩ :=
   ⟨by decide, by decide, by decide, by decide, by intro n hn; injection hn with hn; subst hn; decide,
